@@ -64,48 +64,66 @@ struct Case {
 
 // ---------------------------------------------------------------- generators
 
-fn all_nested<'a>(s: &'a SchemaInfo) -> Vec<&'a NestedInfo> {
-  fn walk<'a>(n: &'a NestedInfo, out: &mut Vec<&'a NestedInfo>) {
-    out.push(n);
-    for c in n.children.iter() {
-      walk(c, out);
-    }
-  }
-  let mut out = Vec::new();
-  for n in s.nested.iter() {
-    walk(n, &mut out);
-  }
-  out
-}
-
 fn gen_schema_for(rng: &mut Rng, mode: Mode) -> SchemaInfo {
   let o = SchemaOpts { all_stored: true, p_fast: 0.85, p_nullable: 0.6, want_nested: true };
   let mut s = c14gen::gen_schema(rng, &o);
   match mode {
     Mode::Normal => {}
     Mode::UnstoredIndexed => {
-      // flip `stored` off on one field that is indexed or fast (never `body`)
-      let mut paths: Vec<String> =
-        s.all_fields().iter().filter(|f| (f.indexed || f.fast) && f.name != "body").map(|f| f.path.clone()).collect();
+      // One field (never `body`) loses `stored` while staying indexed and/or fast. The class is drawn
+      // first so that every way of being "indexed/fast but not stored" is exercised:
+      // 0 text (indexed), 1 keyword indexed only, 2 keyword fast only, 3 keyword both, 4 numeric fast, 5 numeric not fast
+      let class = rng.below(6);
+      let want = |f: &FieldInfo| -> bool {
+        f.name != "body"
+          && match class {
+            0 => f.kind == Kind::Text && f.indexed,
+            1..=3 => f.kind == Kind::Keyword,
+            _ => matches!(f.kind, Kind::I64 | Kind::F64),
+          }
+      };
+      let mut paths: Vec<String> = s.all_fields().iter().filter(|f| want(f)).map(|f| f.path.clone()).collect();
+      if paths.is_empty() {
+        paths = s.all_fields().iter().filter(|f| (f.indexed || f.fast) && f.name != "body").map(|f| f.path.clone()).collect();
+      }
       paths.sort();
       let p = rng.pick(&paths).clone();
-      fn set(n: &mut NestedInfo, p: &str) {
-        for f in n.fields.iter_mut() {
-          if f.path == p {
-            f.stored = false;
+      let apply = |f: &mut FieldInfo| {
+        if f.path != p {
+          return;
+        }
+        f.stored = false;
+        match (class, f.kind) {
+          (1, Kind::Keyword) => {
+            f.indexed = true;
+            f.fast = false;
           }
+          (2, Kind::Keyword) => {
+            f.indexed = false;
+            f.fast = true;
+          }
+          (3, Kind::Keyword) => {
+            f.indexed = true;
+            f.fast = true;
+          }
+          (4, Kind::I64 | Kind::F64) => f.fast = true,
+          (5, Kind::I64 | Kind::F64) => f.fast = false,
+          _ => {}
+        }
+      };
+      fn walk(n: &mut NestedInfo, apply: &dyn Fn(&mut FieldInfo)) {
+        for f in n.fields.iter_mut() {
+          apply(f);
         }
         for c in n.children.iter_mut() {
-          set(c, p);
+          walk(c, apply);
         }
       }
       for f in s.fields.iter_mut() {
-        if f.path == p {
-          f.stored = false;
-        }
+        apply(f);
       }
       for n in s.nested.iter_mut() {
-        set(n, &p);
+        walk(n, &apply);
       }
     }
     Mode::UnrebuildableProp => {
@@ -308,6 +326,42 @@ fn query_node(rng: &mut Rng, s: &SchemaInfo, bodies: &[String], depth: usize) ->
   }
 }
 
+/// Requests aimed at one field (the one whose data a wrong compaction would drop): term queries when
+/// it is indexed, filters (wrapped in Nested for nested paths) when it is fast.
+fn focus_requests(rng: &mut Rng, f: &FieldInfo) -> Vec<Req> {
+  let mut out = Vec::new();
+  let parts: Vec<&str> = f.path.split('.').collect();
+  let wrap = |leaf: Value| -> Value {
+    let mut v = leaf;
+    for p in parts[..parts.len() - 1].iter().rev() {
+      v = json!({"Nested": {"path": p, "filter": v}});
+    }
+    v
+  };
+  for _ in 0..4 {
+    if f.indexed && matches!(f.kind, Kind::Text | Kind::Keyword) {
+      let value = if f.kind == Kind::Text { gen::WORDS[rng.zipf(gen::WORDS.len())].to_string() } else { rng.pick(gen::TAGS).to_string() };
+      out.push(Req {
+        json: json!({"query": {"type": "term", "field": f.path, "value": value}, "limit": idx::BIG_LIMIT, "execution": "bm25"}),
+        kind: "scored",
+        sort: vec![],
+        small_limit: false,
+        twin: None,
+      });
+    }
+    if f.fast {
+      out.push(Req {
+        json: json!({"query": {"type": "match_all"}, "filter": wrap(leaf_filter(rng, f)), "limit": idx::BIG_LIMIT, "execution": "bm25"}),
+        kind: "filter",
+        sort: vec![],
+        small_limit: false,
+        twin: None,
+      });
+    }
+  }
+  out
+}
+
 fn gen_requests(rng: &mut Rng, s: &SchemaInfo, bodies: &[String]) -> Vec<Req> {
   let mut out = Vec::new();
   let exec = |rng: &mut Rng| *rng.pick(&["bm25", "wand", "bmw"]);
@@ -440,7 +494,13 @@ fn gen_case(rng: &mut Rng, quick: bool) -> Case {
     post_ops.push(Op::Add { id, doc: d });
     post_ops.push(Op::Delete { id: format!("d{}", rng.usize(n_ids)) });
   }
-  let requests = gen_requests(rng, &schema, &bodies);
+  let mut requests = gen_requests(rng, &schema, &bodies);
+  if mode == Mode::UnstoredIndexed {
+    let unstored: Vec<FieldInfo> = schema.all_fields().into_iter().filter(|f| !f.stored).cloned().collect();
+    for f in unstored.iter() {
+      requests.extend(focus_requests(rng, f));
+    }
+  }
   Case { mode, in_memory, positions: rng.chance(0.8), schema, commits, post_ops, requests }
 }
 
@@ -631,7 +691,6 @@ struct Structure {
   doc_count: u64,
   deleted: u64,
   paths: Vec<String>,
-  ids: Vec<String>,
 }
 
 fn structure(index: &Index) -> Structure {
@@ -645,7 +704,6 @@ fn structure(index: &Index) -> Structure {
       .iter()
       .flat_map(|s| vec![s.paths.terms.clone(), s.paths.postings.clone(), s.paths.docstore.clone(), s.paths.fast.clone(), s.paths.meta.clone()])
       .collect(),
-    ids: m.segments.iter().map(|s| s.id.clone()).collect(),
   }
 }
 
@@ -821,7 +879,10 @@ fn stem(e: &str) -> String {
   // stable part of an error message: letters only, first words, nothing after a path or quoted name
   let e = e.split(|c| c == '/' || c == '"').next().unwrap_or(e);
   let s: String = e.chars().map(|c| if c.is_ascii_alphanumeric() { c.to_ascii_lowercase() } else { '-' }).collect();
-  let parts: Vec<&str> = s.split('-').filter(|p| !p.is_empty() && !p.chars().all(|c| c.is_ascii_digit())).take(6).collect();
+  // generated field names are not part of the root cause
+  const NAMES: &[&str] = &["body", "title", "note", "tag", "cat", "n", "x", "c", "d", "who", "k", "s", "t", "sub", "w", "z", "req", "pk", "id"];
+  let parts: Vec<&str> =
+    s.split('-').filter(|p| !p.is_empty() && !p.chars().all(|c| c.is_ascii_digit()) && !NAMES.contains(p)).take(6).collect();
   parts.join("-")
 }
 
@@ -1389,7 +1450,7 @@ fn run_case(case: &Case, dir: &Path, scratch: &Path, l: &mut Local) -> Outcome {
 fn main() {
   let args: Vec<String> = std::env::args().skip(1).collect();
   let mut ctx = Ctx::from_args("C14", "exploration", &args);
-  ctx.rule = "each case = random schema (text/keyword/numeric + nested objects with child objects, random nullable/fast flags) + a history of 2-5 commits of upserts/deletes over 3-16 ids with documents using every value shape (absent, null, scalar, 1-element array, multi-valued, [], nested arrays with null and {} elements). Observed before and after Index::compact(): match_all stored contents (modulo null/[]/absent, 1-element array, numeric trivia), the id SET of ~40 generated requests (scored: term/query_string/phrase/prefix/wildcard/bool/constant_score; filters incl. Nested/Not/And/Or; execution bm25/wand/bmw) and, for requests sorted by a field, the SEQUENCE of sort keys (ties are not judged); manifest structure (one segment, no deleted document counted, merged segments' files gone); then reopen, a second compaction, a commit after compaction checked against the content model and a third compaction of compacted+new segment. In refusal modes (an indexed/fast field not stored; a required nested property neither stored nor indexed; a required child object with empty stored projection) on Filesystem storage: manifest, directory listing + content hashes and every result must be unchanged and a later commit must work. evaluations = individual before/after comparisons (one per request, contents, structure, directory); a case is non-trivial (counted once by hash of schema+history+mode) when it had >= 2 segments before compaction and >= 5 requests whose result was neither empty nor all live documents.".into();
+  ctx.rule = "each case = random schema (text/keyword/numeric + nested objects with child objects, random nullable/fast flags) + a history of 2-5 commits of upserts/deletes over 3-16 ids with documents using every value shape (absent, null, scalar, 1-element array, multi-valued, [], nested arrays with null and {} elements). Observed before and after Index::compact(): match_all stored contents (modulo null/[]/absent, 1-element array, numeric trivia), the id SET of ~40 generated requests (scored: term/query_string/phrase/prefix/wildcard/bool/constant_score; filters incl. Nested/Not/And/Or; execution bm25/wand/bmw) and, for requests sorted by a field, the SEQUENCE of sort keys (ties are not judged); manifest structure (one segment, no deleted document counted, merged segments' files gone); then reopen, a second compaction, a commit after compaction checked against the content model and a third compaction of compacted+new segment. In refusal modes (one text / keyword indexed-only / keyword fast-only / keyword indexed+fast / numeric field not stored, with 4 extra term queries or filters aimed at that field; a required nested property neither stored nor indexed; a required child object with empty stored projection) on Filesystem storage: manifest, directory listing + content hashes and every result must be unchanged and a later commit must work. evaluations = individual before/after comparisons (one per request, contents, structure, directory); a case is non-trivial (counted once by hash of schema+history+mode) when it had >= 2 segments before compaction and >= 5 requests whose result was neither empty nor all live documents.".into();
   ctx.assumptions = vec![
     "storage is healthy; a single process; no concurrent writers".into(),
     "scores and the relative order of equal-score / equal-sort-key documents may change (statistics and internal ids change); only sets and sort-key sequences are compared".into(),
